@@ -67,12 +67,12 @@ Section Proof.
         destruct (Unpack.unpack_nostar V ts cur) eqn:E'; [|discriminate]. cbn. f_equal. eapply IH; eauto. }
       specialize (IH (S index) (pre ++ [a]) cur bs' ltac:(cbn [length] in Hn; lia) E).
       destruct IH as [stores [Hgo Hev]].
-      exists (NamedExpr x (Subscript (Name tmpn) (cint (Z.of_nat index - Z.of_nat n))) :: stores).
+      exists (NamedExpr x (Subscript (Name tmpn) (nint (Z.of_nat index - Z.of_nat n))) :: stores).
       split.
       + unfold go in *. cbn [map tgt_expr pattern_go]. rewrite assign_name. cbn [rbind].
         rewrite Hgo. reflexivity.
-      + rewrite <- app_assoc in Hev. cbn [app] in Hev. cbn [eval_stores eval_store eval_acc cint].
-        rewrite String.eqb_refl.
+      + rewrite <- app_assoc in Hev. cbn [app] in Hev. cbn [eval_stores eval_store eval_acc].
+        rewrite int_of_nint, String.eqb_refl.
         rewrite (py_index_back pre cur a index n) by (cbn [length] in Hn; lia).
         cbn [option_map]. rewrite Hev. reflexivity.
   Qed.
@@ -124,8 +124,8 @@ Section Proof.
         destruct IH as [stores [Hgo Hev]]; [rewrite app_length; cbn; lia|cbn [length] in Hn; lia|exact E|].
         exists (NamedExpr x (Subscript (Name tmpn) (cint (Z.of_nat index))) :: stores). split.
         * unfold go in *. cbn [map tgt_expr pattern_go]. rewrite assign_name. cbn [rbind]. rewrite Hgo. reflexivity.
-        * rewrite <- app_assoc in Hev. cbn [app] in Hev. cbn [eval_stores eval_store eval_acc cint].
-          rewrite String.eqb_refl. rewrite <- Hpre. rewrite py_index_front. cbn [option_map]. rewrite Hev. reflexivity.
+        * rewrite <- app_assoc in Hev. cbn [app] in Hev. cbn [eval_stores eval_store eval_acc].
+          rewrite int_of_cint, String.eqb_refl. rewrite <- Hpre. rewrite py_index_front. cbn [option_map]. rewrite Hev. reflexivity.
       + cbn [Unpack.unpack] in Hu.
         destruct (Nat.leb (length ts) (length cur)) eqn:Hle; [|discriminate]. apply Nat.leb_le in Hle.
         destruct (unpack_nostar ts (skipn (length cur - length ts) cur)) as [bs'|] eqn:E; [|discriminate].
@@ -136,10 +136,10 @@ Section Proof.
         rewrite <- app_assoc, firstn_skipn in Hev.
         eexists. split.
         * unfold go in *. cbn [map tgt_expr pattern_go]. rewrite assign_name. cbn [rbind]. rewrite Hgo. reflexivity.
-        * cbn [app eval_stores eval_store eval_acc cint call].
-          rewrite String.eqb_refl.
+        * cbn [app eval_stores eval_store eval_acc call].
+          rewrite int_of_cint, String.eqb_refl.
           assert (Hs := py_slice_star pre cur (length ts) index Hpre Hle ltac:(cbn [length] in Hn; lia)).
-          destruct (Z.of_nat index - Z.of_nat n + 1 =? 0)%Z; cbn [option_map cint]; rewrite Hs, Hev; reflexivity.
+          destruct (Z.of_nat index - Z.of_nat n + 1 =? 0)%Z; cbn [option_map]; rewrite ?int_of_nint; rewrite Hs, Hev; reflexivity.
   Qed.
 End Proof.
 
